@@ -182,14 +182,15 @@ class PropertyValue(cssutils.util._NewBase):
                 ok = False
                 break
 
-        self.wellformed = ok
         if ok:
+            self.wellformed = True
             self._setSeq(seq)
         else:
             self._log.error(
                 'PropertyValue: Unknown syntax or no value: %s'
                 % self._valuestr(cssText)
             )
+            self.wellformed = False
 
     cssText = property(
         lambda self: cssutils.ser.do_css_PropertyValue(self),
@@ -392,8 +393,9 @@ class ColorValue(Value):
         prods = Choice(PreDef.hexcolor(stop=True), namedcolor, noalp, witha)
 
         ok, seq, store, unused = ProdParser().parse(cssText, self.type, prods)
-        self.wellformed = ok
-        if ok:
+        if not ok:
+            self.wellformed = False
+        else:
             t, v = seq[0].type, seq[0].value
             if 'IDENT' == t:
                 rgba = self.COLORS[normalize(v)]
@@ -473,6 +475,7 @@ class ColorValue(Value):
                         '%s (N=Number, P=Percentage)' % (functiontype, check)
                     )
 
+            self.wellformed = True
             self._colorType = t
             self._red, self._green, self._blue, self._alpha = tuple(rgba)
             self._setSeq(seq)
